@@ -82,4 +82,4 @@ def run(tier):
 MANIFEST = dict(engine='mc + rt', level='model_checking',
   technique='exhaustive enumeration: histories x prefixes x ids for the lookup, pinned-clock grid for the expiry sweep, per-transition monitor on the explicit-state BFS for the end of sessions',
   text='(a) every prefix of every scripted history (with and without a snapshot restore) is queried for every id around the ids of the history and compared with the liveness the full history defines; (b) the real ExpireSessions is run with the wall clock pinned at exact distances (+-1ns, +-1s, 3x) from every session last activity in every scenario state; (c) a monitor on every transition of the mc exploration checks that ended sessions are out of the nick index and channels, that their nickname can be taken, and that no output ever names a session that is not live.',
-  note='Bounds as C06 for (c); (a) histories <= 40 entries; (b) clock pinned through the overlaid time.Now (trusted to behave like the stock one otherwise). API tier on a non-leader node (Follower and Candidate); network tier: the expiry loop of main() on three real binaries across a leader change.')
+  note='Bounds as C06 for (c); (a) histories <= 40 entries; (b) clock pinned through the overlaid time.Now (trusted to behave like the stock one otherwise). API tier on a non-leader node (Follower and Candidate); leader tier: the real DELETE handler of a single-node leader with 11 client-chosen quit messages x 5 previous activities; network tier: the expiry loop of main() on three real binaries across a leader change.')
